@@ -21,7 +21,7 @@ def sorted_positions(labels):
     return order
 
 
-def reindex(ctx, shape, pos, lkind, k, form='list', fill='nan', raise_error=False, method=None, dkind='f', own=False, axis_by='name', qkind=None):
+def reindex(ctx, shape, pos, lkind, k, form='list', fill='nan', raise_error=False, method=None, dkind='f', own=False, axis_by='name', qkind=None, twice=False):
     lkinds = ['i'] * len(shape)
     lkinds[pos] = lkind
     a, ref, dims, labels = build(ctx, shape, lkinds, dkind)
@@ -57,6 +57,8 @@ def reindex(ctx, shape, pos, lkind, k, form='list', fill='nan', raise_error=Fals
         f = lambda: a.reindex_axis(arg, axis=name, **kw)
     else:
         f = lambda: a.reindex_axis(arg, axis=pos, **kw)
+    if twice:       # the same request on the same operand a second time must give the same (correct) answer
+        ctx.call(f)
     r = ctx.call(f)
     found = [find(old, q) for q in new]
     absent = any(p is None for p in found)
@@ -143,6 +145,9 @@ def templates():
     for fill in ('nan', 'sym'):
         for dk in 'fi':
             add('fill-%s-data-%s' % (fill, dk), 'reindex', cost=2, shape=[3], pos=0, lkind='i', k=2, fill=fill, dkind=dk)
+    for lk, dk, fill in (('i', 'f', 'nan'), ('i', 'i', 'sym'), ('U', 'f', 'sym'), ('f', 'i', 'nan')):
+        add('twice-%s-%s-%s' % (lk, dk, fill), 'reindex', cost=2, shape=[3], pos=0, lkind=lk, k=3 if lk == 'i' and dk == 'f' else 2, fill=fill, dkind=dk, twice=True)
+    add('twice-2d', 'reindex', cost=3, shape=[2, 3], pos=1, lkind='i', k=2, twice=True)
     add('raise-error', 'reindex', cost=2, shape=[3], pos=0, lkind='i', k=2, raise_error=True)
     add('raise-error-U', 'reindex', cost=2, shape=[2], pos=0, lkind='U', k=2, raise_error=True)
     for method in ('left', 'right'):
